@@ -5,6 +5,7 @@ from dask.dataframe.dispatch import make_meta, meta_nonempty
 from dask.utils import import_required, is_series_like
 
 from dask_expr._expr import DropnaSeries, Expr
+from dask_expr._util import _tokenize_deterministic
 
 
 def _finalize_scalar_result(cons, *args, **kwargs):
@@ -42,6 +43,11 @@ class SeriesQuantile(Expr):
         if is_series_like(self._meta):
             return (np.min(self.q), np.max(self.q))
         return (None, None)
+
+    @property
+    def _rows_key(self):
+        # The index is q whatever the data (DataFrame.quantile concatenates columns)
+        return "quantile-" + _tokenize_deterministic(self.q)
 
     @functools.cached_property
     def _constructor(self):
